@@ -179,6 +179,12 @@ func (t *Table) addGlobalIndex(gsiInput *types.GlobalSecondaryIndex) error {
 		return err
 	}
 
+	// items already in the table are part of the new index
+	for _, key := range t.SortedKeys {
+		// items whose index key has the wrong type are left out
+		_ = i.putData(key, t.Data[key])
+	}
+
 	t.Indexes[*gsiInput.IndexName] = i
 
 	return nil
